@@ -155,11 +155,15 @@ func checkC04(ci interface{}, st *Stats) error {
 	if c.PreLen > 0 {
 		st.Class("file placed after another file")
 	}
-	trims := hasKind(g, KLTrim) || hasKind(g, KRTrim) || wide // (no tree validation: offsets differ from the model's)
-	lead := 0                                                 // whitespace a LeftTrim may skip before the first node
-	if trims && !wide {
+	single := hasKind(g, KSingle)
+	trims := hasKind(g, KLTrim) || hasKind(g, KRTrim) || wide || single // (no tree validation: offsets or shapes differ from the model's)
+	lead := 0                                                           // whitespace a LeftTrim may skip before the first node
+	if hasKind(g, KLTrim, KRTrim) {
 		st.Class("accepted, grammar with whitespace trimming")
 		lead, _, _, _ = judgeRun([]byte(in), 0, 2)
+	}
+	if single {
+		st.Class("accepted, grammar with Single")
 	}
 	if int(node.Pos()) < base || int(node.Pos()) > base+lead || int(node.ReaderPos()) != base+len(in) {
 		return fmt.Errorf("root spans %d..%d, want 0..%d", int(node.Pos())-base, int(node.ReaderPos())-base, len(in))
@@ -197,7 +201,7 @@ func checkC04(ci interface{}, st *Stats) error {
 		st.Class("accepted, ambiguous grammar")
 		st.NonTrivial()
 	}
-	if trims && !wide {
+	if hasKind(g, KLTrim, KRTrim) {
 		// the values are the terminals: the input without its whitespace
 		in = strings.Map(func(r rune) rune {
 			if r == ' ' || r == '\t' || r == '\n' || r == '\f' {
@@ -247,6 +251,7 @@ func init() {
 			o.RuleNames = rapid.IntRange(0, 3).Draw(t, "rulenames") == 1
 			o.Suppress = rapid.IntRange(0, 3).Draw(t, "suppress") == 0
 			o.RefTrims = rapid.IntRange(0, 3).Draw(t, "reftrims") == 0
+			o.SingleSafe = rapid.IntRange(0, 4).Draw(t, "singlesafe") == 0
 			wideRune := 0
 			if !o.RefTrims && rapid.IntRange(0, 5).Draw(t, "wide") == 0 {
 				wideRune = int(rapid.SampledFrom([]rune{0x80, 0xe9, 0xff, 0x100, 0x7ff, 0x800, 0x20ac, 0xfffd, 0xffff, 0x10000, 0x1f600}).Draw(t, "wideRune"))
